@@ -1723,7 +1723,39 @@ def m_join(interp, sep, parts):
 
 STRLIKE.extend([SStr, TStr])
 
+
+class SymRange:
+    """range() with symbolic bounds: supports membership (and iteration only when concrete)."""
+
+    def __init__(self, start, stop, step=1):
+        if isinstance(step, SInt):
+            raise NotEncodable("range with symbolic step")
+        self.start, self.stop, self.step = start, stop, step
+
+    def sym_contains(self, x):
+        a, b, x = lift_int(self.start), lift_int(self.stop), lift_int(x)
+        if self.step == 1:
+            return mkbool(z3.And(a <= x, x < b))
+        if self.step > 0:
+            return mkbool(z3.And(a <= x, x < b, (x - a) % self.step == 0))
+        return mkbool(z3.And(b < x, x <= a, (a - x) % (-self.step) == 0))
+
+    def __iter__(self):
+        raise NotEncodable("iteration over a range with symbolic bounds")
+
+    def __len__(self):
+        raise NotEncodable("len of a range with symbolic bounds")
+
+
+def m_range(interp, *a):
+    if any(isinstance(x, SInt) for x in a):
+        if len(a) == 1:
+            return SymRange(0, a[0])
+        return SymRange(*a)
+    return range(*a)
+
 MODELS = {
+    range: m_range,
     hash: lambda interp, x: interp.hash_of(x),
     len: m_len,
     isinstance: m_isinstance,
